@@ -44,8 +44,7 @@ structure QItem where
 structure WSt where
   found : Nat := 0
   out : Str := []                                  -- bytes written to stdout so far
-  buffer : List (Criteria × Str) := []             -- abstract `output_buffer` (see TopN.lean)
-  topn : TopNState Criteria Str := TopNState.new 0 -- faithful `output_buffer`
+  buffer : List (Criteria × Str) := []             -- insertion history of `output_buffer` (arrival order)
   raw : List Memo := []                            -- raw_output_buffer
   visited : List Nat := []                         -- visited_inodes
   errPaths : List Str := []                        -- sources named on stderr
@@ -140,7 +139,6 @@ def checkFile (p : Plan) (st : WSt) (e : Entry) : Except Abort WSt :=
               let crit : Criteria := ⟨ks⟩
               .ok { st with cache := c, found := found,
                             buffer := st.buffer ++ [(crit, row)],
-                            topn := st.topn.insert p.le crit row,
                             raw := if p.q.hasAggregateColumn then st.raw ++ [m3] else st.raw }
             else
               let sep := if found > 1 then fmtSeparator p.q.format else []
@@ -331,6 +329,13 @@ def groupedCmp (idxs : List Nat) (asc : List Bool) (a b : List (Str × Str)) : O
     if o != .eq then o else groupedCmp is ds a b
   | _, _ => .eq
 
+/-- `TopN` as a function of its insertion history (echelon layer, util/top_n.rs) -/
+def insertAll {K V : Type} (le : K → K → Bool) (limit : Nat) (xs : List (K × V)) : TopNState K V :=
+  xs.foldl (fun t x => t.insert le x.1 x.2) (TopNState.new limit)
+
+/-- the ordered result: what `output_buffer.values()` yields after all rows were inserted -/
+def orderedPieces (p : Plan) (st : WSt) : List Str := (insertAll p.le p.q.limit st.buffer).values
+
 /-- everything after the roots have been searched: buffered rows, aggregates, footer -/
 def finish (p : Plan) (st : WSt) : Except Abort (Str × Bool) :=
   let fmt := p.q.format
@@ -356,7 +361,7 @@ def finish (p : Plan) (st : WSt) : Except Abort (Str × Bool) :=
         .ok (st.out ++ fmtRow fmt (cols.map fun c => (toLowerRust c.1, c.2.1)) ++ fmtFooter fmt,
              st.inexact || cols.any (fun c => !c.2.2))
   else if p.q.isBuffered then
-    let pieces := st.topn.values
+    let pieces := orderedPieces p st
     .ok (st.out ++ joinWith (fmtSeparator fmt) pieces ++ fmtFooter fmt, st.inexact)
   else .ok (st.out ++ fmtFooter fmt, st.inexact)
 
